@@ -784,8 +784,19 @@ func zzC15(e *zzEnv, rng *rand.Rand, n int, variant int) {
 			}
 		}
 		d1 := []byte("non-interference-file-a")
+		waitFor := func(p string) {
+			// the receiver validates, logs and moves after it has answered: wait for the
+			// file system state the next answers depend on (however loaded the machine is)
+			for k := 0; k < 400; k++ {
+				if _, err := os.Stat(p); err == nil {
+					break
+				}
+				time.Sleep(25 * time.Millisecond)
+			}
+			time.Sleep(100 * time.Millisecond)
+		}
 		step(e.dataReq(source, key, "/", "ni/a.dat", "", "", d1))
-		time.Sleep(150 * time.Millisecond)
+		waitFor(filepath.Join(e.recv, "final", source, "ni", "a.dat"))
 		meta := zzDataMeta("ni/a.dat", "", "", d1)
 		rr := &zzReq{Route: "data-recovery", Method: "PUT", URL: "/data-recovery?v=1", Headers: map[string]string{"X-STS-SrcName": source, "X-STS-Sep": "/"}}
 		rr.body = []byte(meta)
@@ -795,6 +806,28 @@ func zzC15(e *zzEnv, rng *rand.Rand, n int, variant int) {
 		vv.body = b
 		step(vv)
 		step(&zzReq{Route: "partials", Method: "GET", URL: "/partials?v=1", Headers: map[string]string{"X-STS-SrcName": source}})
+		// state that lives in the running receiver: a file validated and HELD for a
+		// predecessor that never comes, and a half-received file
+		d2 := []byte("non-interference-file-b-held")
+		step(e.dataReq(source, key, "/", "ni/b.dat", "", "ni/never-sent.dat", d2))
+		waitFor(filepath.Join(e.recv, "stage", source, "ni", "b.dat.wait"))
+		d3 := []byte("non-interference-file-c-first-half|second-half-never-sent")
+		half := 36
+		m3 := fmt.Sprintf(`[{"n":"ni/c.dat","r":"","p":"","f":"%s","t":"1700000000+5","s":%d,"b":0,"e":%d}]`, zzMD5(d3), len(d3), half)
+		c3 := &zzReq{Route: "data", Method: "PUT", URL: "/data?v=1", Headers: map[string]string{"X-STS-SrcName": source, "X-STS-MetaLen": strconv.Itoa(len(m3)), "X-STS-Sep": "/"}}
+		c3.body = append([]byte(m3), d3[:half]...)
+		step(c3)
+		b2, _ := json.Marshal([]map[string]any{{"n": "ni/a.dat", "t": 1700000000}, {"n": "ni/b.dat", "t": 1700000000}, {"n": "ni/c.dat", "t": 1700000000}})
+		v2 := &zzReq{Route: "validate", Method: "POST", URL: "/validate?v=1", Headers: map[string]string{"X-STS-SrcName": source, "X-STS-Sep": "/", "Content-Type": "application/json"}}
+		v2.body = b2
+		step(v2)
+		r3 := &zzReq{Route: "data-recovery", Method: "PUT", URL: "/data-recovery?v=1", Headers: map[string]string{"X-STS-SrcName": source, "X-STS-Sep": "/"}}
+		r3.body = []byte(m3)
+		step(r3)
+		step(&zzReq{Route: "partials", Method: "GET", URL: "/partials?v=1", Headers: map[string]string{"X-STS-SrcName": source}})
+		v3 := &zzReq{Route: "validate", Method: "POST", URL: "/validate?v=1", Headers: map[string]string{"X-STS-SrcName": source, "X-STS-Sep": "/", "Content-Type": "application/json"}}
+		v3.body = b2
+		step(v3)
 		return log
 	}
 	if len(e.sources) == 0 && len(e.keys) > 0 {
